@@ -459,6 +459,46 @@ def defaults(chk, prog):
         chk.ob("R5.defaults", CFG + "Config::from_tree", f"default of `{k}` equals Config::default()'s value", seen.get(k, "").strip("into()") .replace("into(", "").rstrip(")") in (v,) or v in seen.get(k, ""), f"{seen.get(k)}")
 
 
+def comments_everywhere(chk, prog):
+    """R4.comments: a comment may follow any line.  Every line the tree parser takes from its line iterator goes through `clean_up` (comment
+    removed, trimmed) before anything looks at it; a site that compares the raw line (e.g. the search for `server {`) makes the meaning of a
+    file depend on where its comments are."""
+    n = 0
+    for pth, bb in sorted(prog.bodies.items()):
+        if not pth.startswith("humphrey_server::config::tree::") or "promoted" in pth:
+            continue
+        cleaned = set()
+        for blk, t in bb.calls_to(r"config::tree::clean_up$"):
+            d = core.describe(prog, bb, t["args"][0])
+            cleaned |= {c[3] for c in core.desc_calls(d) if len(c) > 3}
+        for blk, t in bb.calls():
+            tys = t.get("arg_tys") or []
+            if not tys or "TracebackIterator" not in tys[0] or "&mut" not in tys[0] and not tys[0].startswith("humphrey_server::config::traceback::TracebackIterator"):
+                continue
+            callee = t.get("resolved") or t.get("callee") or ""
+            if core.re.search(r"(::current_line|::by_ref|TracebackIterator<T> as std::convert::From<T>>::from|config::tree::(parse_section|include)|config::error::quiet_assert|::deref(_mut)?|IntoIterator>::into_iter)$", callee) or \
+                    callee.startswith("humphrey_server::config::"):
+                continue
+            n += 1
+            if callee.endswith("::next"):
+                dty = bb.local_ty(t["dest"]["l"])
+                if "str" not in dty:
+                    continue
+                chk.ob("R4.comments", pth, "the line read here goes through clean_up() before it is interpreted", blk in cleaned,
+                       "a raw line (comment not removed) is interpreted: a `# comment` on that line changes what the file means", where=bb.where(blk))
+                continue
+            # an iterator adapter / consumer over the lines: its closure must clean the line itself
+            cls = [core.describe(prog, bb, a) for a in t["args"][1:]]
+            cls = [prog.bodies[c[1]] for c in cls if c[0] == "closure" and c[1] in prog.bodies]
+            ok = bool(cls)
+            for cb in cls:
+                cu = cb.calls_to(r"config::tree::clean_up$")
+                ok = ok and any(desc_contains(core.describe(prog, cb, t2["args"][0]), lambda y: y[0] == "param") for _, t2 in cu)
+            chk.ob("R4.comments", pth, f"lines consumed through {core.short(callee)}: the closure cleans each line with clean_up()", ok,
+                   "raw lines (comments not removed) are examined: a `# comment` on such a line changes what the file means", where=bb.where(blk))
+    chk.floor("line-consuming sites in the config tree parser", n, 2)
+
+
 def run(chk):
     prog = chk.use(core.load("A", fresh=(chk.tier == "thorough")))
     chk.explanation = (
@@ -474,6 +514,7 @@ def run(chk):
     route_kinds(chk, prog)
     error_lines(chk, prog)
     line_source(chk, prog)
+    comments_everywhere(chk, prog)
     ordering(chk, prog)
     per_pattern_routes(chk, prog)
     quoted_values(chk, prog)
